@@ -500,6 +500,12 @@ def inline_new_helpers(raw, baseline=None):
                 break
     helpers = {p for p, b in by_path.items() if p not in baseline and "{closure" not in p and "{constant" not in p and "{impl" not in p.split("::")[-1]
                and b.get("kind") in ("Fn", "AssocFn")}
+    # a function of the pinned tree that merely moved to another module (its old path is gone, its item name is the same) is not a new helper
+    def tail(p_):
+        segs = re.sub(r"<[^<>]*>", "", re.sub(r"<[^<>]*>", "", p_)).split("::")
+        return tuple(segs[-2:]) if (len(segs) >= 3 and segs[-2][:1].isupper()) else tuple(segs[-1:])
+    gone = {tail(p_) for p_ in baseline if p_ not in by_path and not p_.startswith("<")}
+    helpers = {p_ for p_ in helpers if tail(p_) not in gone}
     if not helpers:
         return done
     pristine = {p: copy.deepcopy(by_path[p]) for p in helpers}
